@@ -53,14 +53,14 @@ def check_net(net, spec):
     for tbl, fc, tc in comps:
         t, r = net[tbl], net["res_" + tbl]
         for idx in t.index:
-            if tbl == "valve" and t.at[idx, "et"] != "ju":
-                continue
-            if tbl == "pipe" and idx in pv_pipes:
-                continue                      # one end sits on an internal valve node
             m = r.at[idx, "mdot_from_kg_per_s"]
             if np.isnan(m) or abs(m) < 1e-4:
                 continue
             fj, tj = int(t.at[idx, fc]), int(t.at[idx, tc])
+            if tbl == "valve" and t.at[idx, "et"] != "ju":
+                # junction-to-pipe valve: its far end is an internal node that sits where the junction sits (same height,
+                # same ambient pressure); the attached pipe reports that node's pressure at its valve end
+                tj = fj
             d = (t.at[idx, "inner_diameter_mm"]) / 1000.0
             area = d * d * np.pi / 4
             length = t.at[idx, "length_km"] * 1000.0 if tbl == "pipe" else 0.0
@@ -71,7 +71,8 @@ def check_net(net, spec):
             pf = r.at[idx, "p_from_bar"] + pamb(h.at[fj])
             pt = r.at[idx, "p_to_bar"] + pamb(h.at[tj])
             dh = h.at[fj] - h.at[tj]
-            lam, re = r.at[idx, "lambda"], r.at[idx, "reynolds"]
+            has_fr = "lambda" in r.columns          # heat exchangers (zero length) report neither lambda nor Re
+            lam, re = (r.at[idx, "lambda"], r.at[idx, "reynolds"]) if has_fr else (0.0, np.nan)
             tm = (tf + tout) / 2
             if abs(tf - tout) > 1e-9 and (m < 0 or sections != 1):
                 # given, non-uniform junction temperatures: the law is evaluated per section with interpolated temperatures,
@@ -81,7 +82,7 @@ def check_net(net, spec):
                 rho = (float(fluid.get_density(tf)) + float(fluid.get_density(tout))) / 2
                 eta = float(fluid.get_viscosity(tm))
                 v = m / (rho * area)
-                if abs(r.at[idx, "v_mean_m_per_s"] - v) > 1e-9 * (1 + abs(v)):
+                if "v_mean_m_per_s" in r.columns and abs(r.at[idx, "v_mean_m_per_s"] - v) > 1e-9 * (1 + abs(v)):
                     fail("C02:v_mean:%s" % tbl, "v = mdot/(rho A)", table=tbl, index=int(idx), reported=r.at[idx, "v_mean_m_per_s"], expected=v)
                 loss = (lam * length / d + zeta) * rho * v * abs(v) / 2 / 1e5
                 resid = pf - pt + rho * G * dh / 1e5 - loss
@@ -107,6 +108,8 @@ def check_net(net, spec):
                 fail("C02:law:%s:%s" % ("gas" if gas else "liquid", tbl), "documented momentum equation", table=tbl,
                      index=int(idx), residual_bar=resid, friction_loss_bar=loss, mdot=m, friction_model=fm)
             re_exp = abs(m) * d / (eta * area)
+            if not has_fr:
+                continue
             if abs(m) > 1e-3 and abs(re - re_exp) > 1e-5 * (1 + re_exp):   # reported Re / lambda are those of the last linearisation
                 fail("C02:reynolds:%s" % tbl, "Re = |mdot| d/(eta A)", table=tbl, index=int(idx), reported=re, expected=re_exp)
             if tbl == "pipe" and abs(m) > 1e-3:
